@@ -291,3 +291,4 @@ _OFFR = [("contracts.ufunc", n) for n in _U.OFFSET_REFUSALS]
 PLANS["C08"].proofs += _OFFR
 PLANS["C18"].proofs += [p for p in _OFFR if "_out_" in p[1]]
 PLANS["C11"].proofs += [("contracts.registry", "RegistryDeepcopy")]     # a deep copy: own table, same rows, empty memo
+PLANS["C10"].proofs += [("contracts.registry", "GetBaseEquivalent")]    # result bound to the converted unit's registry
